@@ -1,14 +1,143 @@
-(* Props/C10.v -- placeholder until the parser proofs land: entry points agree definitionally. *)
-From JsonSyntax Require Import Base.Prelude Base.Value Base.Unicode Model.Parser Model.EntryPoints.
+(* Props/C10.v -- the canonical form: idempotent, blind to member order, changes nothing but
+   member order and number spelling, leaves every object queryable, depends on a number's
+   spelling only through its nearest double.  Statements only.  Structural half; the number
+   conversion of the implementation is the parameter [num_canon]. *)
+From JsonSyntax Require Import Base.Prelude Base.Value Base.Unicode Model.Compare Model.Object
+  Model.Canon Spec.EcmaNumber Spec.Jcs Spec.PermEq Spec.Multimap Spec.CanonSpec
+  Proofs.CompareProofs Proofs.ObjectInv Proofs.CanonProofs
+  Base.Float64 Proofs.Float64Proofs Proofs.NumberProofs Proofs.CanonNumber.
+From Coq Require Import Sorting.Permutation.
 
-Theorem C10_entry_points_text : forall cs,
-  parse_str cs = parse_str_with strict cs /\
-  parse_str cs = parse_utf8 cs /\
-  parse_str cs = parse_utf8_with strict cs /\
-  parse_str cs = parse_infallible_utf8 cs /\
-  parse_str cs = parse_utf8_infallible_with strict cs /\
-  parse_str cs = parse (chars cs) /\
-  parse_str cs = parse_with strict (chars cs).
-Proof. exact (fun cs => conj eq_refl (conj eq_refl (conj eq_refl (conj eq_refl (conj eq_refl (conj eq_refl eq_refl)))))). Qed.
+(* T2: idempotent, given that the number conversion is *)
+Theorem C10_canon_idem : forall (num_canon : list N -> list N),
+  (forall n, num_canon (num_canon n) = num_canon n) ->
+  forall v, canonicalize num_canon (canonicalize num_canon v) = canonicalize num_canon v.
+Proof. exact canon_idem. Qed.
 
-Print Assumptions C10_entry_points_text.
+(* T3: values equal up to member order (at any depth) have the same canonical form.
+   [keys_scalar]: member names are scalar sequences (true of every Rust String; needed in
+   the model, see C10_scalar_keys_needed) *)
+Theorem C10_canon_perm : forall (num_canon : list N -> list N) v w,
+  keys_scalar v -> PermEq v w -> canonicalize num_canon v = canonicalize num_canon w.
+Proof. exact canon_perm. Qed.
+Theorem C10_canon_perm_wfv : forall (num_canon : list N -> list N) v w,
+  wfv v -> PermEq v w -> canonicalize num_canon v = canonicalize num_canon w.
+Proof. exact canon_perm_wfv. Qed.
+Example C10_scalar_keys_needed :
+  let v := VObj [(bad_key1, VNull); (bad_key2, VNull)] in
+  let w := VObj [(bad_key2, VNull); (bad_key1, VNull)] in
+  PermEq v w /\ nodup_keys v /\
+  canonicalize (fun n => n) v <> canonicalize (fun n => n) w.
+Proof. exact canon_perm_needs_scalar_keys. Qed.
+
+(* T4: up to member order the canonical form is the value with its numbers respelt;
+   structure, strings, booleans, nulls, array order are untouched *)
+Theorem C10_canon_preserves : forall (num_canon : list N -> list N) v,
+  PermEq (canonicalize num_canon v) (map_numbers num_canon v).
+Proof. exact canon_preserves. Qed.
+(* the I-JSON side conditions survive *)
+Theorem C10_canon_nodup_keys : forall (num_canon : list N -> list N) v,
+  nodup_keys v -> nodup_keys (canonicalize num_canon v).
+Proof. exact canon_nodup_keys. Qed.
+Theorem C10_canon_keys_scalar : forall (num_canon : list N -> list N) v,
+  keys_scalar v -> keys_scalar (canonicalize num_canon v).
+Proof. exact canon_keys_scalar. Qed.
+
+(* T6: rebuilding the index over the sorted entries (`indexes.clear(); insert each`, i.e.
+   Model.Object.from_vec / sort_with) cannot panic, yields the C06 invariant, and every
+   query answers as a linear scan of the sorted entries *)
+Theorem C10_canon_queryable : forall es : list entry,
+  exists ob, from_vec (stable_sort canon_entry_cmp es) = Some ob /\
+             sort_with canon_entry_cmp {| entries := es; buckets := [] |} = Some ob /\
+             Inv ob /\
+             entries ob = stable_sort canon_entry_cmp es /\
+             Permutation es (entries ob) /\
+             entries_sorted (entries ob) /\
+             forall k,
+               contains_key ob k = Some (m_contains (entries ob) k) /\
+               index_of ob k = Some (m_index_of (entries ob) k) /\
+               redundant_index_of ob k = Some (m_redundant_index_of (entries ob) k) /\
+               indexes_of ob k = Some (m_indexes_of (entries ob) k) /\
+               get ob k = Some (m_get (entries ob) k) /\
+               get_entries ob k = Some (m_get_entries (entries ob) k) /\
+               get_entries_with_index ob k = Some (m_get_entries_with_index (entries ob) k) /\
+               option_map conv_unique (get_unique ob k) = Some (m_get_unique (entries ob) k) /\
+               option_map conv_unique (get_unique_entry ob k) = Some (m_get_unique_entry (entries ob) k).
+Proof. exact canon_queryable. Qed.
+
+(* T7: the RFC 8785 rendering of a number depends on its spelling only through the nearest
+   double of the decimal it denotes *)
+Theorem C10_canon_spelling : forall n n' d d',
+  read_decimal n = Some d -> read_decimal n' = Some d' ->
+  nearest_double d = nearest_double d' -> canon_number n = canon_number n'.
+Proof. exact canon_spelling. Qed.
+
+(* the premises are satisfiable, on a reshuffled pair and on sample spellings *)
+Example C10_example_perm :
+  canonicalize ref_num_canon ex_value = canonicalize ref_num_canon ex_shuffled.
+Proof. exact ex_canon_perm. Qed.
+Example C10_example_num_idem :
+  Forall (fun n => ref_num_canon (ref_num_canon n) = ref_num_canon n)
+         [s2l "1.0"; s2l "0.50"; s2l "10e20"; s2l "1e21"; s2l "-0"; s2l "1E-7"; s2l "123456789012345678901234567890"].
+Proof. exact ex_num_idem. Qed.
+
+(* ---------------------------------------------------------------------------------------
+   NUMBER HALF (depends on Flocq's theorems, i.e. on the four standard-library axioms)
+   --------------------------------------------------------------------------------------- *)
+
+(* idempotence, unconditionally, for the reference conversion *)
+Theorem C10_idempotent : forall v,
+  canonicalize ref_num_canon (canonicalize ref_num_canon v) = canonicalize ref_num_canon v.
+Proof. exact canon_ref_idem. Qed.
+Theorem C10_number_idempotent : forall n t, canon_number n = Some t -> canon_number t = Some t.
+Proof. exact canon_number_idempotent. Qed.
+
+(* each number keeps its double value (a negative zero is rendered "0") *)
+Theorem C10_number_keeps_double : forall n t, canon_number n = Some t ->
+  exists d d', read_decimal n = Some d /\ read_decimal t = Some d' /\
+               nearest_double d' = drop_zero_sign (nearest_double d).
+Proof. exact canon_number_keeps_double. Qed.
+
+(* numerically equal spellings (same sign, same exact decimal value) canonicalize alike *)
+Theorem C10_number_spelling : forall n n' d d',
+  read_decimal n = Some d -> read_decimal n' = Some d' -> dec_equiv d d' ->
+  canon_number n = canon_number n'.
+Proof. exact canon_number_spelling. Qed.
+(* the nearest double depends only on the exact value m * 10^e *)
+Theorem C10_nearest_double_value : forall m1 e1 m2 e2,
+  dec_R m1 e1 = dec_R m2 e2 -> nearest_double_pos m1 e1 = nearest_double_pos m2 e2.
+Proof. exact nearest_double_pos_value. Qed.
+(* reading any well-formed spelling (sign, digits, optional fraction, optional exponent with
+   E/e, optional sign, digits) in closed form; two spellings of equal value agree *)
+Theorem C10_read_spelling : forall sp, spelling_wf sp ->
+  read_decimal (render sp) = Some (spelling_decimal sp).
+Proof. exact read_render. Qed.
+Theorem C10_equal_spellings : forall sp sp', spelling_wf sp -> spelling_wf sp' ->
+  dec_equiv (spelling_decimal sp) (spelling_decimal sp') ->
+  canon_number (render sp) = canon_number (render sp').
+Proof. exact canon_render_equiv. Qed.
+
+(* member order at any depth does not change the canonical text *)
+Theorem C10_order_blind : forall v w, keys_scalar v -> PermEq v w ->
+  Spec.Minimal.ser_min (canonicalize ref_num_canon v) = Spec.Minimal.ser_min (canonicalize ref_num_canon w).
+Proof. exact canon_ref_perm_text. Qed.
+
+Print Assumptions C10_canon_idem.
+Print Assumptions C10_canon_perm.
+Print Assumptions C10_canon_perm_wfv.
+Print Assumptions C10_scalar_keys_needed.
+Print Assumptions C10_canon_preserves.
+Print Assumptions C10_canon_nodup_keys.
+Print Assumptions C10_canon_keys_scalar.
+Print Assumptions C10_canon_queryable.
+Print Assumptions C10_canon_spelling.
+Print Assumptions C10_example_perm.
+Print Assumptions C10_example_num_idem.
+Print Assumptions C10_idempotent.
+Print Assumptions C10_number_idempotent.
+Print Assumptions C10_number_keeps_double.
+Print Assumptions C10_number_spelling.
+Print Assumptions C10_nearest_double_value.
+Print Assumptions C10_read_spelling.
+Print Assumptions C10_equal_spellings.
+Print Assumptions C10_order_blind.
